@@ -347,6 +347,8 @@ pub fn run(ctx: &mut Ctx) {
     ctx.run_leg::<Cold>(nc, false, 40);
     super::coldstart::infra_inconclusive(ctx);
 
+    let nt = ctx.share(ctx.tier.pick(1_600, 40_000));
+    ctx.run_leg::<Temporaries>(nt, false, 200);
     let n = ctx.share(ctx.tier.pick(30_000, 400_000));
     ctx.run_leg::<Python>(n, false, 1000);
     let n = ctx.share(ctx.tier.pick(200_000, 4_000_000));
